@@ -11,4 +11,8 @@ UNITS_LOCAL = {"C09": [
          budget={"quick": 100, "thorough": 1000},
          rule="TODO",
          assumptions=[]),
+    Unit("any", ["harness/C09_any.cpp"], repo_src=["rkcommon/utility/demangle.cpp"], flags=ASAN, env=_ENV, engine="seqmc",
+         budget={"quick": 100, "thorough": 1000},
+         rule="TODO",
+         assumptions=[]),
 ]}
